@@ -473,7 +473,7 @@ theorem C07_reachable (s : Sys) (l : List Step) (inv : ClaimInv s.hub) (hl : s.h
             intro x m' x' ms hp hx
             cases handle_touch x x' m' ms hx with
             | none h _ _ _ => rw [h.hub]; exact hp
-            | hub s1 sender funds hm _ _ _ hx' b t r d g => exact C07_hub_step _ _ _ _ _ _ _ hp.1 hp.2 hx'
+            | hub s1 sender funds hm _ _ _ _ hx' b t r d g => exact C07_hub_step _ _ _ _ _ _ _ hp.1 hp.2 hx'
             | bsei s1 sender funds tm _ _ hx' h t r d g => rw [h]; exact hp
             | stsei blk sender funds tm _ hx' h b r d g => rw [h]; exact hp
             | reward s1 sender funds rm _ _ _ _ hx' h b t d g => rw [h]; exact hp
